@@ -678,6 +678,12 @@ CORPUS = [
     ('HIST choice 3', '(setitem-name 0 (py 5)) (setpos -1 (obj 7)) (getcomponent)'),
     ('HIST seqof 1 0', '(extend (py 1) (py 2) (py 3)) (getitem 5)'),                          # T5 (known finding)
     ('HIST rec 0 (r o (d 7))', '(setitem-name 0 (py 1)) (values) (eq (v 1) hole hole)'),      # T4 == after read (known finding)
+    # positions filled back to front (the store's insertion order differs from the position order), then whole-container ops
+    ('HIST seqof 1 0', '(setpos 2 (py 30)) (setpos 1 (py 20)) (setpos 0 (py 10)) (reverse) (iter) (encode)'),
+    ('HIST seqof 0 1', '(setpos 2 (obj 3)) (setpos 1 (obj 2)) (setpos 0 (obj 1)) (reverse) (iter) (encode)'),
+    ('HIST seqof 1 0', '(setpos 2 (py 30)) (setpos 0 (py 10)) (setpos 1 (py 20)) (clone 1) (reverse) (iter) (append (py 5)) (encode)'),
+    ('HIST seqof 1 0', '(setpos 1 (py 20)) (setpos 0 (py 10)) (sort) (iter) (count 10) (index 20) (encode)'),
+    ('HIST seqof 1 0', '(setpos 2 (py 1)) (setpos 1 (py 2)) (setpos 0 (py 3)) (iter) (getslice 0 2) (contains 2) (eq 3 2 1)'),
 ]
 
 READER_CORPUS = [
